@@ -382,7 +382,9 @@ def alloc_key_of(key):
 def bind_args(X, params, argv):
     env = {}
     for (pn, pt), a in zip(params, argv):
-        if isinstance(a, LValue):
+        if isinstance(a, LValue) and a.kind == 'cell' and not a.path and pt is not None:
+            env[pn] = SV(a.data[1], pt)      # address of a variable: the parameter is that (non-nil) pointer
+        elif isinstance(a, LValue):
             env[pn] = a
         elif isinstance(a, FuncVal):
             env[pn] = SV(z3.IntVal(1), pt)
